@@ -201,7 +201,11 @@ func checkC14(r *Result) []Violation {
 			step    int
 		}
 		var groups [][]want
+		ambiguous := false
 		for _, e := range r.Hist {
+			if ambiguous {
+				break
+			}
 			if e.K != KDeliver || e.C != ci || e.Ref <= delivered {
 				continue
 			}
@@ -241,7 +245,10 @@ func checkC14(r *Result) []Violation {
 					continue
 				}
 				if now-x.created == int64(expireAfter) || now-x.updated == int64(reissueAfter) {
-					continue // exact boundary: the property does not say which way it falls; generators avoid it
+					// inbound data at exactly 5 s / 60 s: the property does not say which way the instant
+					// falls, so nothing from here on can be demanded of this connection in this run
+					ambiguous = true
+					break
 				}
 				if now-x.updated > int64(reissueAfter) {
 					var missing []uint16
@@ -257,6 +264,9 @@ func checkC14(r *Result) []Violation {
 			if len(group) > 0 {
 				groups = append(groups, group)
 			}
+		}
+		if ambiguous {
+			continue
 		}
 		ri := 0
 		for _, group := range groups {
